@@ -154,7 +154,7 @@ func (g *Gen) Leaf(depth int) *R {
 	case 8:
 		return &R{Op: "errno", I: []int64{errnos[g.r.intn(len(errnos))]}}
 	case 9:
-		return &R{Op: []string{"grpcstatus", "gogostatus"}[g.r.intn(2)], I: []int64{int64(g.r.intn(17))}, S: []string{g.str()}}
+		return &R{Op: []string{"grpcstatus", "gogostatus"}[g.r.intn(2)], I: []int64{int64(1 + g.r.intn(16))}, S: []string{g.str()}}
 	case 10:
 		return &R{Op: "testerror"}
 	case 11:
